@@ -4,7 +4,8 @@ Theorems: coq/Properties/C06.v.  Ties (correspondence by execution):
   ranges  : Lattice.parse_ranges / main.parse_lattice on option strings
   bounds  : LatticeBounds.size/dims/indices/__getitem__, LatticeSpec + items,
             LatticeSpec.__getitem__ (tuple / int)
-  fillid  : ParseMCNPCell.to_fillid
+  fillid  : ParseMCNPCell.to_fillid, ParseMCNPCell.parse_fill_kw (tokens ->
+            ranges, universes, parameter tokens, rest of the keyword list)
   numeric : latticeReciprocal, latticeVector, squareLatticeReciprocalVecs,
             squareLatticeBaseVectors, compose_transform at binary64
   develop : CellConversion.develop_lattice observed (wrapper installed by the
@@ -82,7 +83,8 @@ HEADER = ('From Coq Require Import List ZArith Bool String Ascii PrimFloat.\n'
 ERR = {'LatticeError': 'ELattice', 'ZeroDivisionError': 'EZeroDiv',
        'ValueError': 'EValue', 'IndexError': 'EIndex',
        'AssertionError': 'EAssert',
-       'MissingLatticeOptError': 'EMissingLatticeOpt'}
+       'MissingLatticeOptError': 'EMissingLatticeOpt',
+       'ParseMCNPCellError': 'EParseCell'}
 
 
 # ---- rendering of values as Coq terms --------------------------------------
@@ -362,6 +364,96 @@ def gen_range_string(rng, valid=True):
     if kind == 'empty':
         return rng.choice(['', ':', '::', '1:', ':1'])
     return gen_int_spelling(rng, False) + ':' + gen_int_spelling(rng, False)
+
+
+PARAM_TOKENS = ['0', '1', '-2', '0.5', '90', '1.5', '-0.25', '3', '12', '7',
+                '.5', '2.', '1e1', '1.5d1', '2.5-1', '+4', '-1.e-1', '3d0']
+BAD_PARAM_TOKENS = ['2r', '-', '1.5x', '.', '+e1', '1e', '1d+', '3j']
+TAILS = [[], [], ['imp:n', '1'], ['u', '3'], ['lat', '1', 'imp:n', '1'],
+         ['trcl', '2'], ['vol', '1.0']]
+
+
+def gen_fill_tokens(rng):
+    '''(first argument, rest of the keyword list in reading order, shape)'''
+    tail = list(rng.choice(TAILS))
+    if rng.random() < 0.2:
+        n_par = rng.choice([0, 1, 3, 12, 2, 9])
+        pars = [rng.choice(PARAM_TOKENS) for _ in range(n_par)]
+        if n_par == 1:
+            pars = [str(rng.randint(1, 99))]
+        return str(rng.choice([1, 2, 17, 0])), pars + tail, 'plain'
+    bs = [(lo, lo + n - 1) for lo, n in
+          ((rng.randint(-3, 2), rng.choice([1, 1, 2, 3])) for _ in
+           range(rng.choice([1, 2, 3, 3, 3])))]
+    ranges = [gen_int_spelling_of(rng, lo) + ':' + gen_int_spelling_of(rng, hi)
+              for lo, hi in bs]
+    size = 1
+    for lo, hi in bs:
+        size *= hi - lo + 1
+    mode = rng.choice(['exact', 'exact', 'exact', 'short', 'repeat',
+                       'repeat_over', 'bad'])
+    univs = [rng.choice([0, 1, 2, 3, 5, 17]) for _ in range(size)]
+    toks = [gen_int_spelling_of(rng, u) for u in univs]
+    shape = 'array:' + mode
+    if mode == 'exact':
+        k = rng.choice([0, 0, 0, 1, 2, 3, 3, 4, 6, 9, 12, 13])
+        pars = [rng.choice(PARAM_TOKENS) for _ in range(k)]
+        if k == 1:
+            pars = [str(rng.randint(1, 99))]
+        if k and rng.random() < 0.08:
+            pars[rng.randrange(k)] = rng.choice(BAD_PARAM_TOKENS)
+            shape = 'array:badparam'
+        toks = toks + pars
+        shape += f':surplus{k}'
+    elif mode == 'short':
+        toks = toks[:rng.randint(0, size - 1)]
+        if not tail and rng.random() < 0.7:
+            tail = ['imp:n', '1']
+    elif mode in ('repeat', 'repeat_over'):
+        # u nR shorthand for a run of equal universes
+        n = rng.randint(1, max(1, size - 1))
+        head = [rng.choice([1, 2, 5]) for _ in range(size - n)] or [2]
+        n = size - len(head)
+        rep = [f'{n}r'] if n != 1 or rng.random() < 0.5 else ['r']
+        if n == 0:
+            rep = []
+        if mode == 'repeat_over':
+            rep = [f'{n + rng.randint(1, 3)}r']
+        toks = [str(u) for u in head] + rep
+        k = rng.choice([0, 0, 3])
+        toks += [rng.choice(PARAM_TOKENS) for _ in range(k)]
+    else:
+        toks = rng.choice([['r'] + toks, ['xr'] + toks, toks[:1] + ['qr'],
+                           ['1:2:3'] + toks, toks[:0]])
+        if rng.random() < 0.3:
+            ranges[0] = rng.choice(['1:', '0:1:2', 'a:1'])
+    return ranges[0], ranges[1:] + toks + tail, shape
+
+
+def gen_int_spelling_of(rng, value):
+    sign = '-' if value < 0 else rng.choice(['', '', '', '+'])
+    return sign + rng.choice(['', '', '0']) + str(abs(value))
+
+
+def fill_tokens_truth(first, stack):
+    '''Independent reading of a well-formed array (mode exact): ranges,
+    then size integers, then every token that looks like a number.'''
+    ranges = [first]
+    k = 0
+    while k < len(stack) and ':' in stack[k]:
+        ranges.append(stack[k])
+        k += 1
+    bs = [tuple(int(x) for x in r.split(':')) for r in ranges]
+    size = 1
+    for lo, hi in bs:
+        size *= hi - lo + 1
+    univs = [int(t) for t in stack[k:k + size]]
+    k += size
+    n_par = 0
+    while k < len(stack) and stack[k][0] in '0123456789.+-':
+        n_par += 1
+        k += 1
+    return bs, univs, n_par
 
 
 def gen_bounds(rng, allow_weird=True):
@@ -689,6 +781,75 @@ def direct_ties(res, rng, quick):
     tie(res, 'c06_specget', 'LatticeSpec.__getitem__',
         'bounds * list Z * (list Z + Z) * res Z', 'check_spec_getitem', cases,
         metas, lambda m: str(m)[:300])
+
+    # -- parse_fill_kw: tokens after FILL -> (bounds, universes, parameters) --
+    from t4_geom_convert.Kernel.FileHandlers.Parser import ParseMCNPCell as pm
+    parser = ParseMCNPCell.__new__(ParseMCNPCell)
+    parser.transforms = {k: [0.0, 0.0, 0.0, 1.0, 0.0, 0.0, 0.0, 1.0, 0.0,
+                             0.0, 0.0, 1.0] for k in range(100)}
+    seen_consumed = []
+    orig_expand, orig_norm = pm.expand_data_card, pm.normalize_transform
+
+    def spy_expand(tokens, **kwargs):
+        out = orig_expand(tokens, **kwargs)
+        seen_consumed.append(out[1])
+        return out
+    cases, metas = [], []
+    pm.expand_data_card = spy_expand
+    pm.normalize_transform = list    # numeric normalisation: C04's subject
+    try:
+        for k in range(220 * mult):
+            first, stack, shape = gen_fill_tokens(rng)
+            kw_list = list(reversed([first] + stack))
+            del seen_consumed[:]
+            out = call(lambda e, kw: parser.parse_fill_kw(e, kw),
+                       rng.choice(['fill', '*fill']), kw_list)
+            if out[0] == 'ok':
+                f_bounds, f_univs, _ = out[1]
+                rest = list(reversed(kw_list))
+                if f_bounds is None:
+                    n_par = len(stack) - len(rest)
+                    cb, cu = 'None', f'(FInt {cz(f_univs)})'
+                else:
+                    n_more = len(f_bounds.bounds) - 1
+                    consumed = seen_consumed[-1]
+                    n_par = 0 if consumed == 0 else \
+                        len(stack) - n_more - consumed - len(rest)
+                    cb = f'(Some {cbounds([tuple(b) for b in f_bounds.bounds])})'
+                    cu = f'(FArr {clist(cz(u) for u in f_univs)})'
+                expected = (f'(Ok ({cb}, {cu}, {common.cnat(n_par)}, '
+                            f'{clist(cstr(t) for t in rest)}))')
+                summary = ('ok', f_bounds and [tuple(b) for b in f_bounds.bounds],
+                           f_univs, n_par, rest)
+            else:
+                expected = cres(out, None)
+                summary = out
+            cases.append(cpair(cstr(first), clist(cstr(t) for t in stack),
+                               expected))
+            metas.append({'first': first, 'stack': stack, 'shape': shape,
+                          'impl': summary})
+            res.seen(('fill_kw', first, stack), nontrivial=True)
+            res.count('parse_fill_kw:' + shape + ':'
+                      + (out[0] if out[0] == 'ok' else out[1]))
+            # oracle (well-formed arrays): exactly `size` universes in order,
+            # every following numeric token swallowed as a parameter
+            if shape.startswith('array:exact'):
+                want_u = summary[2] if out[0] == 'ok' else None
+                truth = fill_tokens_truth(first, stack)
+                if out[0] != 'ok' or summary[1] != truth[0] \
+                        or want_u != truth[1] or summary[3] != truth[2]:
+                    res.violation(
+                        'impl-violation',
+                        f'parse_fill_kw({first!r}, {stack}) = {summary}, '
+                        f'expected bounds/universes/params {truth}',
+                        {'input': {'first': first, 'stack': stack}},
+                        found_input=True)
+    finally:
+        pm.expand_data_card, pm.normalize_transform = orig_expand, orig_norm
+    res.sample({'parse_fill_kw': metas[0]})
+    tie(res, 'c06_fillkw', 'parse_fill_kw',
+        'string * list string * res (option bounds * funivs * nat * list string)',
+        'check_fill_kw', cases, metas, lambda m: str(m)[:300])
 
     # -- to_fillid --
     cases, metas = [], []
